@@ -215,9 +215,9 @@ theorem c04_stepLine_vinv {style : StrokeStyle K} {R2 : K} {V : List (Point K)} 
     · exact c04_lastEndPoint_snoc' c.backward_path _ (.LineTo _)
     · exact (c04_sub_add_hypot2 _ _).trans hn
 
-theorem c04_endCap_allW {style : StrokeStyle K} {R2 : K} {V : List (Point K)} (hB : C04Bound style R2) {lp rp : Point K}
+theorem c04_endCap_allW {style : StrokeStyle K} {R2 : K} {V : List (Point K)} (hB : C04Bound style R2) {tol : K} {lp rp : Point K}
     (hlp : lp ∈ V) (hrp : c04_W R2 V rp) (hd : (lp - rp).hypot2 = (style.width / 2) ^ 2) :
-    c04_allW R2 V (c04_endCap style lp rp) := by
+    c04_allW R2 V (c04_endCap tol style lp rp) := by
   unfold c04_endCap
   split
   · exact c04_allW_single (x := .LineTo _) hrp
@@ -225,8 +225,8 @@ theorem c04_endCap_allW {style : StrokeStyle K} {R2 : K} {V : List (Point K)} (h
   · rename_i h0 _
     exact c04_squareCap_allW false hlp _ hd hB.half (hB.square (Or.inr (fun h => h0 h)))
 
-theorem c04_startCap_allW {style : StrokeStyle K} {R2 : K} {V : List (Point K)} (hB : C04Bound style R2) {s : Point K}
-    {n : Vec2 K} (hs : s ∈ V) (hn : n.hypot2 = (style.width / 2) ^ 2) : c04_allW R2 V (c04_startCap style s n) := by
+theorem c04_startCap_allW {style : StrokeStyle K} {R2 : K} {V : List (Point K)} (hB : C04Bound style R2) {tol : K} {s : Point K}
+    {n : Vec2 K} (hs : s ∈ V) (hn : n.hypot2 = (style.width / 2) ^ 2) : c04_allW R2 V (c04_startCap tol style s n) := by
   unfold c04_startCap
   split
   · exact c04_allW_single (x := .ClosePath) trivial
